@@ -28,20 +28,22 @@ import (
 )
 
 type stats struct {
-	Cases     int            `json:"cases"`
-	Distinct  int            `json:"distinct_nontrivial"`
-	Blocks    int            `json:"blocks"`
-	Txs       int            `json:"transactions_included"`
-	Dropped   int            `json:"transactions_dropped_by_proposer"`
-	Restarts  int            `json:"restarts"`
-	Specul    int            `json:"discarded_speculative_validations"`
-	Archive   int            `json:"heights_revalidated_from_archive"`
-	Unusual   int            `json:"unusually_encoded_transactions_offered"`
-	VoteFlips int            `json:"vote_window_closed_between_caching_and_proposing"`
-	Kinds     map[string]int `json:"tx_kinds_offered"`
-	Procs     map[string]int `json:"gomaxprocs"`
-	BigBlocks int            `json:"blocks_with_16_or_more_state_ops"`
-	Samples   []string       `json:"samples"`
+	Cases        int            `json:"cases"`
+	Distinct     int            `json:"distinct_nontrivial"`
+	Blocks       int            `json:"blocks"`
+	Txs          int            `json:"transactions_included"`
+	Dropped      int            `json:"transactions_dropped_by_proposer"`
+	Restarts     int            `json:"restarts"`
+	Specul       int            `json:"discarded_speculative_validations"`
+	Archive      int            `json:"heights_revalidated_from_archive"`
+	Unusual      int            `json:"unusually_encoded_transactions_offered"`
+	VoteFlips    int            `json:"vote_window_closed_between_caching_and_proposing"`
+	ForgedTwice  int            `json:"forged_signature_transactions_offered_twice"`
+	CertVariants int            `json:"nodes_given_a_commit_certificate_with_another_signer_set"`
+	Kinds        map[string]int `json:"tx_kinds_offered"`
+	Procs        map[string]int `json:"gomaxprocs"`
+	BigBlocks    int            `json:"blocks_with_16_or_more_state_ops"`
+	Samples      []string       `json:"samples"`
 }
 
 var st = stats{Kinds: map[string]int{}, Procs: map[string]int{}}
@@ -93,6 +95,13 @@ func main() {
 		nKeys := 10
 		for i := 0; i < nKeys; i++ {
 			g.Accounts = append(g.Accounts, &fsm.Account{Address: sim.BLSKey(i).Addr, Amount: 5_000_000_000})
+		}
+		// accounts under the other signature schemes (their verification goes through the batch verifier's per-scheme paths)
+		edKey, _ := crypto.NewEd25519PrivateKey()
+		skKey, _ := crypto.NewSECP256K1PrivateKey()
+		otherKeys := []crypto.PrivateKeyI{edKey, skKey}
+		for _, k := range otherKeys {
+			g.Accounts = append(g.Accounts, &fsm.Account{Address: k.PublicKey().Address().Bytes(), Amount: 5_000_000_000})
 		}
 		sim.RegisterKeys(16)
 		var nodes []*sim.CNode
@@ -149,6 +158,25 @@ func main() {
 			if len(txs) > 1 && r.Chance(30) {
 				txs = append(txs, txs[0]) // duplicate offered twice
 			}
+			// a transfer under an ed25519 / secp256k1 key: honest, or with a forged signature that the leader's mempool sees twice
+			// (submitted, refused, submitted again): a refusal must not be remembered as an acceptance
+			if r.Chance(35) {
+				k := otherKeys[r.Intn(len(otherKeys))]
+				t, terr := fsm.NewSendTransaction(k, crypto.NewAddress(sim.BLSKey(r.Intn(nKeys)).Addr), 100+uint64(b), 1, 1, 10000, h, fmt.Sprintf("o%d", b))
+				if terr == nil {
+					bz, _ := lib.Marshal(t)
+					if r.Chance(60) {
+						tx := new(lib.Transaction)
+						_ = lib.Unmarshal(bz, tx)
+						tx.Signature.Signature[r.Intn(len(tx.Signature.Signature))] ^= 0x40
+						bz, _ = lib.Marshal(tx)
+						leader.Enter()
+						_ = leader.C.Mempool.HandleTransactions(bz)
+						st.ForgedTwice++
+					}
+					txs = append(txs, bz)
+				}
+			}
 			for _, nd := range nodes { // every operator votes yes on the governance proposals of this round
 				nd.ApproveGov(txs)
 			}
@@ -191,6 +219,28 @@ func main() {
 			if qerr != nil {
 				panic(qerr)
 			}
+			// several valid commit certificates exist for one block (any +2/3 of the committee): each node ends up with its own -
+			// all signers, or all but one. The proposer of the next block embeds ITS certificate of this block in the header;
+			// what the others (and the archive a fresh node syncs from) stored may differ in the signer bitmap
+			variants := make([]*lib.QuorumCertificate, len(nodes))
+			for i := range nodes {
+				variants[i] = qc
+				if n := len(vs.ValidatorSet.ValidatorSet); n >= 4 && r.Chance(35) {
+					drop := r.Intn(n)
+					var signers []int
+					for k := 0; k < n; k++ {
+						if k != drop {
+							signers = append(signers, k)
+						}
+					}
+					if alt, e := sim.MakeQC(vs, view, sim.BLSKey(leader.KeyIdx).Pub, prop, signers); e == nil {
+						if partial, cerr := alt.Check(vs, lib.GlobalMaxBlockSize, view, false); cerr == nil && !partial {
+							variants[i] = alt
+							st.CertVariants++
+						}
+					}
+				}
+			}
 			var reps []report
 			var names []string
 			fail := func(who string, err lib.ErrorI) {
@@ -199,6 +249,12 @@ func main() {
 			ok := true
 			for i, n := range nodes {
 				n.Enter()
+				qc := variants[i]
+				if n != leader {
+					// the nodes run in one process and would share the process-wide signature cache with the leader: a replica
+					// starts each validation with a cache of its own (cold)
+					_ = crypto.SignatureCache.Reset()
+				}
 				switch i {
 				case 0, 1, 2:
 					if n == leader || i == 1 {
